@@ -2,11 +2,14 @@ import QibProofs.Lemmas.TNetTreeData
 import QibProofs.Lemmas.TNetEinsumCertMain
 import QibProofs.Lemmas.TNetBridgeDense
 import QibProofs.Lemmas.TNetTreePermTree
+import QibProofs.Lemmas.TNetBridgeFinset
+import QibProofs.Lemmas.TNetTreeBuildOK
 /-!
 C07 — Network contraction is independent of strategy and equals the defining sum: theorems about the EXECUTABLE model
 (`QibModel/TNet.lean`, driver `drv_tnet`). Statements only; proofs are in `QibProofs/Lemmas/TNetBridgeRel.lean`,
 `TNetEinsumSound.lean`, `TNetEinsumData.lean`, `TNetTreeCert.lean`, `TNetTreeStruct.lean`, `TNetTreeSound.lean`,
-`TNetTreeRoot.lean`, `TNetTreeData.lean`, `TNetEinsumCert.lean`, `TNetEinsumCertMain.lean`, `TNetBridgeDense.lean`, `TNetTreePerm.lean`, `TNetTreePermTree.lean`.
+`TNetTreeRoot.lean`, `TNetTreeData.lean`, `TNetEinsumCert.lean`, `TNetEinsumCertMain.lean`, `TNetBridgeDense.lean`, `TNetTreePerm.lean`, `TNetTreePermTree.lean`, `TNetBridgeFinset.lean`, `TNetTreeBuildScan.lean`, `TNetTreeBuildAssign.lean`,
+`TNetTreeBuildInv.lean`, `TNetTreeBuildNode.lean`, `TNetTreeBuildOK.lean`.
 
 `RepOK net` is what Python dictionaries and the constructors guarantee (unique keys, `len(shape) == len(bids)`, sorted
 tensor ids of a bond); with it `isConsistent net = .ok true` is the declarative well-formedness `WF net`
@@ -17,6 +20,23 @@ open Qib.TNet
 
 section Einsum
 variable {α : Type} [CommSemiring α]
+
+/-- **The denotation `full` is the defining sum in Mathlib's terms** (bridge from the model's list sums to `Finset`):
+for consistent pins, the `Finset` sum over all index vectors `vs` for the bonds without open leg – `vs[k]` below the
+dimension of the `k`-th such bond – of the product over the real tensors of the entry read at "inner bond `k` ↦ `vs[k]`,
+open bonds ↦ the logical index"; `0` when two open legs on one bond are given different indices. -/
+theorem C07_full_eq_finset_sum (net : Net) (hb : (dkeys net.bonds).Nodup) (D : Option Int → List Nat → α)
+    (idx : List Nat) {v : STensor} (hv : dget net.tensors (-1) = some v) :
+    full net D idx = if pinsOK v.bids idx then
+        ∑ vs ∈ (allIdx ((internalBids net v).map (bondDim net))).toFinset,
+          ((realTensors net).map (fun t => D t.dataref (t.bids.map
+            (pin (internalBids net v) vs (pin v.bids idx (fun _ => 0)))))).prod
+      else 0 :=
+  full_eq_finset_sum net hb D idx hv
+
+/-- membership in the box of index vectors -/
+theorem C07_mem_box {S z : List Nat} : z ∈ (allIdx S).toFinset ↔ List.Forall₂ (fun i d => i < d) z S :=
+  mem_allIdx_toFinset
 
 /-- **Soundness of the certificate `einsumOK`** (the certificate the harness evaluates on every sampled network).
 For a consistent network, an einsum specification `e` with `einsumOK net e = true`, operands `dt tid` that carry the
@@ -106,6 +126,23 @@ theorem C07_tree_sound {net : Net} (hrep : RepOK net) (hcons : isConsistent net 
     toFullSem r am idx = full net D idx :=
   tree_sound (wf_of_consistent hrep hcons) hv D dict tree am hok hroot hinj hdata hr idx hidx
 
+/-- **Soundness of the strengthened tree certificates** `treeOKList` / `rootOKStrong` (`rootOK` plus "distinct root
+legs carry distinct bonds", decidable, defined in `Lemmas/TNetTreeRoot.lean`): no further hypothesis on the root. -/
+theorem C07_tree_sound_strong {net : Net} (hrep : RepOK net) (hcons : isConsistent net = .ok true) {v : STensor}
+    (hv : dget net.tensors (-1) = some v) (D : Option Int → List Nat → α) (dict : Int → Option (DT α)) (tree : Tree)
+    (am : List Nat) (hok : ∀ x ∈ treeOKList net tree, x = true) (hroot : rootOKStrong net tree am = true)
+    (hdata : ∀ i ∈ leafInfos tree, LeafDataOK net D dict i)
+    {r : DT α} (hr : treeEval dict tree = .ok r) (idx : List Nat)
+    (hidx : List.Forall₂ (fun i d => i < d) idx v.shape) :
+    toFullSem r am idx = full net D idx :=
+  tree_sound_strong (wf_of_consistent hrep hcons) hv D dict tree am hok hroot hdata hr idx hidx
+
+omit [CommSemiring α] in
+/-- the extra conjunct of `rootOKStrong` gives `RootInj` on a certified root -/
+theorem C07_rootInj_of_strong {net : Net} {c : NodeInfo} (hi : infoOK net c = true)
+    (h : nodupB ((List.range c.idxout.length).map (nodeLegBond net c)) = true) : RootInj net c :=
+  rootInj_of_nodupB (infoOK_cert hi) h
+
 omit [CommSemiring α] in
 /-- distinct legs of a certified inner node carry distinct bonds -/
 theorem C07_rootInj_of_node {net : Net} {n : NodeInfo} {l r : Tree} (hok : nodeOK net n l.info r.info = true) :
@@ -113,6 +150,29 @@ theorem C07_rootInj_of_node {net : Net} {n : NodeInfo} {l r : Tree} (hok : nodeO
   (nodeOK_cert hok).legB_inj
 
 end Tree
+
+/-- **The tree builder always produces certified nodes** (the bookkeeping proof of `_build_contraction_tree`, general:
+bonds with any number of legs, partial contraction of a hyper-bond at an inner node, multi-edges, traces, open legs
+sharing a bond; every scaffold): every node of a tree returned by `buildContractionTree` on a consistent network passes
+its certificate `leafOK` / `nodeOK`. -/
+theorem C07_buildTree_ok {net : Net} (hrep : RepOK net) (hcons : isConsistent net = .ok true) (s : Scaffold) {t : Tree}
+    (h : buildContractionTree net s = .ok t) : ∀ x ∈ treeOKList net t, x = true :=
+  (buildTree_ok (wf_of_consistent hrep hcons) s _ t h).1
+
+/-- pairwise evaluation of the tree built for ANY scaffold gives the sum over the bonds contracted inside of the
+product of the leaf tensors (no certificate hypothesis) -/
+theorem C07_buildTree_eval {net : Net} {data : Data} (hrep : RepOK net) (hcd : isConsistentData net data = .ok true)
+    (s : Scaffold) {t : Tree} (h : buildContractionTree net s = .ok t) (hnd : (treeLeaves t).Nodup) {r : DT Int}
+    (hr : treeEval (tensorDict net data) t = .ok r) :
+    r.shape = nodeShape net t.info ∧ ∀ σ, InR net t.info σ →
+      r.get (nodeIdx net t.info σ) = sumOver (bondDim net) (treeElims net t) (treeProd net (dataAcc data) t) σ := by
+  have hwf : WF net := wf_of_consistent hrep (isConsistentData_ok hcd).1
+  have hok := (buildTree_ok hwf s _ t h).1
+  refine treeEval_sound hwf (dataAcc data) (tensorDict net data) t hok hnd ?_ r hr
+  intro i hi
+  have hlc := leafOK_cert (hok _ (leafOK_mem_treeOKList _ i hi))
+  exact leafData_of_leafId hwf hlc.info (buildTree_leafId s _ t h i hi)
+    (fun T hT => tensorDict_ok hwf.tkey hcd hlc.ne hT)
 
 /-- **`contract_tree` returns the defining sum**: the driver's `contractTree` (tree builder, axes map and root
 permutation, data dictionary, pairwise evaluation) on a consistent network with consistent data and ANY scaffold with at
@@ -233,6 +293,7 @@ example : (match buildContractionTree exNet (.node (.leaf 0) (.leaf 1)) with
     | .ok t => (permuteAt t [false] [2, 0, 1]).toBool && (permuteAt t [] [1, 2, 0]).toBool &&
         (treeEval (tensorDict exNet exData) t).toBool
     | .error _ => false) = true := by decide +kernel
+example : (buildContractionTree exNet (.node (.leaf 1) (.leaf 0))).toBool = true := by decide +kernel
 /-- a non-trivial value: the entry at the logical index (1,1,0,1) -/
 example : full exNet (dataAcc exData) [1, 1, 0, 1] = -899 := by decide +kernel
 example : full exNet (dataAcc exData) [0, 1, 0, 1] = 0 := by decide +kernel
@@ -250,6 +311,12 @@ example : isConsistentData cexNet cexData = .ok true := by decide +kernel
 example : ((treeOKList cexNet cexTree).all id && rootOK cexNet cexTree [0, 1]) = true := by decide +kernel
 example : (match treeEval (tensorDict cexNet cexData) cexTree with
     | .ok r => toFullSem r [0, 1] [0, 1] != full cexNet (dataAcc cexData) [0, 1]
+    | .error _ => false) = true := by decide +kernel
+/-- the strengthened certificate rejects it -/
+example : rootOKStrong cexNet cexTree [0, 1] = false := by decide +kernel
+/-- and accepts the tree evaluated by `contractTree` on the first example -/
+example : (match contractTree exNet exData (.node (.leaf 0) (.leaf 1)) with
+    | .ok (_, am, t) => rootOKStrong exNet t am
     | .error _ => false) = true := by decide +kernel
 
 end Example
